@@ -107,6 +107,7 @@ static std::string showReq(HttpRequest& r)
 // ---------------------------------------------------------------- watchdog ("terminates promptly")
 
 static std::atomic<long long> g_opStart(0); // ms, 0 = idle
+static std::atomic<long long> g_opCpu0(0);  // process CPU ms at the start of the op
 static std::string g_opLine;
 
 static long long nowMs()
@@ -125,9 +126,12 @@ static void* watchdog(void*)
 	{
 		usleep(100000);
 		long long t0 = g_opStart.load();
-		if (t0 && nowMs() - t0 > 12000)
+		if (!t0) continue;
+		long long wall = nowMs() - t0, cpu = (long long)(cpuS() * 1000) - g_opCpu0.load();
+		// a spinning reader burns CPU; a reader stuck in a timeout sleeps: either way the connection was not handled promptly
+		if (wall > 12000 || cpu > 3000)
 		{
-			fprintf(stderr, "WATCHDOG: operation did not terminate within 12 s: %.200s\n", g_opLine.c_str());
+			fprintf(stderr, "WATCHDOG: operation did not terminate (wall %lld ms, cpu %lld ms): %.200s\n", wall, cpu, g_opLine.c_str());
 			fflush(stderr);
 			_exit(98);
 		}
@@ -498,6 +502,7 @@ static std::string timedStep(const Toks& t)
 	g_opLine = t[0] + (t.size() > 1 ? " " + t[1].substr(0, 160) : "");
 	long long w0 = nowMs();
 	double c0 = cpuS();
+	g_opCpu0.store((long long)(c0 * 1000));
 	g_opStart.store(w0 ? w0 : 1);
 	std::string r = step(t);
 	g_opStart.store(0);
